@@ -22,11 +22,12 @@ type PairC12 struct {
 type CaseC12 struct {
 	Map   map[string]interface{} `json:"map"`
 	Pairs []PairC12              `json:"pairs"`
+	Unrelated uint16             `json:"unrelated_opts,omitempty"`
 }
 
 func init() { register("C12", checkC12) }
 
-var malformedPairs = []string{"a:", ":b", "a:b:c", "a:n*", "a:n[0]", "a:*", ":", "a::b", "::"}
+var malformedPairs = []string{"a:", ":b", "a:b:c", "a:n*", "a:n[0]", "a:*", ":", "a::b", "::", "a.*", "*", "list[1]", "a[0].k", "*.b", "a.b[0]"}
 
 var spacedKeys = []string{" id", "id", "note ", "note", " a ", "b", "id "}
 
@@ -80,6 +81,7 @@ func genC12(t *rapid.T) CaseC12 {
 		}
 		c.Pairs = append(c.Pairs, p)
 	}
+	c.Unrelated = genUnrelated(t)
 	return c
 }
 
@@ -119,6 +121,8 @@ func checkC12(c CaseC12, info *Info) *Failure {
 		return nil
 	}
 	defer resetOptions()
+	applyUnrelatedOptions(c.Unrelated)
+	info.ClassIf(c.Unrelated != 0, "unrelated options switched on")
 	subject := copyMap(c.Map)
 	js := canon(c.Map)
 	var pairs []string
